@@ -22,13 +22,13 @@ import (
 // upgrade request. All times are virtual milliseconds and multiples of 10, so
 // they never coincide with a context end or a dial timeout (see scenario).
 type peerScript struct {
-	Resp    string `json:"resp"`           // valid | status400 | badaccept | noupgrade | garbage
-	Cuts    []int  `json:"cuts,omitempty"` // permille positions at which the response is split into chunks
-	Gaps    []int  `json:"gaps,omitempty"` // delay before chunk j (relative to the previous delivery / the request); missing = 0
-	Deliver int    `json:"deliver"`        // number of chunks that are delivered; <0 = all, 0 = silent peer
-	EOF     bool   `json:"eof,omitempty"`  // the peer closes its side after the delivered chunks
-	Tail    int    `json:"tail,omitempty"` // bytes of frame data following the response in its last chunk
-	Gate    int    `json:"gate,omitempty"` // the peer starts accepting writes at this time after connect; <0 = never
+	Resp    string `json:"resp"`                        // valid | status400 | badaccept | noupgrade | garbage
+	Cuts    []int  `json:"cuts,omitempty"`              // permille positions at which the response is split into chunks
+	Gaps    []int  `json:"gaps,omitempty"`              // delay before chunk j (relative to the previous delivery / the request); missing = 0
+	Deliver int    `json:"deliver"`                     // number of chunks that are delivered; <0 = all, 0 = silent peer
+	EOF     bool   `json:"eof,omitempty"`               // the peer closes its side after the delivered chunks
+	Tail    int    `json:"tail,omitempty"`              // bytes of frame data following the response in its last chunk
+	Gate    int    `json:"gate,omitempty"`              // the peer starts accepting writes at this time after connect; <0 = never
 	SlowDL  bool   `json:"slow_set_deadline,omitempty"` // every Set*Deadline call takes slowDL of virtual time before it takes effect
 }
 
@@ -426,9 +426,13 @@ func (c *fakeConn) setDL(kind string, t time.Time, r, w bool) error {
 	return nil
 }
 
-func (c *fakeConn) SetDeadline(t time.Time) error      { return c.setDL("SetDeadline", t, true, true) }
-func (c *fakeConn) SetReadDeadline(t time.Time) error  { return c.setDL("SetReadDeadline", t, true, false) }
-func (c *fakeConn) SetWriteDeadline(t time.Time) error { return c.setDL("SetWriteDeadline", t, false, true) }
+func (c *fakeConn) SetDeadline(t time.Time) error { return c.setDL("SetDeadline", t, true, true) }
+func (c *fakeConn) SetReadDeadline(t time.Time) error {
+	return c.setDL("SetReadDeadline", t, true, false)
+}
+func (c *fakeConn) SetWriteDeadline(t time.Time) error {
+	return c.setDL("SetWriteDeadline", t, false, true)
+}
 
 func (c *fakeConn) stopTimersLocked() {
 	for _, t := range c.timers {
